@@ -168,9 +168,8 @@ Proof.
     - left. exists p. split; [|exact Hg]. unfold pend, wr_set. cbn [q12 qrel pubout p_q12 p_unack]. rewrite !in_app_iff. tauto. }
   destruct a as [id|id err|id]; cbn [on_ack ack_id] in *.
   - destruct (in_out id (pubout w)); [apply Hmain; auto|]. left. exists p. split; [|exact Hg]. unfold pend. rewrite !in_app_iff. exact Hin.
-  - destruct (v5 && err).
-    + destruct (in_out id (pubout w)); [apply Hmain; auto|]. left. exists p. split; [|exact Hg]. unfold pend. rewrite !in_app_iff. exact Hin.
-    + apply Hmain. intros x Hx. apply in_or_app. left. exact Hx.
+  - destruct (in_out id (pubout w)); [|left; exists p; split; [|exact Hg]; unfold pend; rewrite !in_app_iff; exact Hin].
+    destruct (v5 && err); [apply Hmain; auto|]. apply Hmain. intros x Hx. apply in_or_app. left. exact Hx.
   - destruct (in_out id (pubout w)); [apply Hmain; auto|]. left. exists p. split; [|exact Hg]. unfold pend. rewrite !in_app_iff. exact Hin.
 Qed.
 
